@@ -7,7 +7,7 @@ from xml.sax.saxutils import escape
 
 from ..docmodel import word
 
-HTML_SUPPORTS = {"r.acc", "r.num", "p", "h", "ul", "ul.nested", "tbl", "tbl.nested", "cell.multi", "r", "br", "a", "ins", "isdt", "cm"}
+HTML_SUPPORTS = {"r.acc", "r.num", "p", "h", "ul", "ul.nested", "tbl", "tbl.nested", "cell.multi", "r", "br", "sp", "a", "ins", "isdt", "cm"}
 
 
 def _inl(inls) -> str:
@@ -26,6 +26,8 @@ def _inl(inls) -> str:
             out.append("<br/>")
         elif t == "tab":
             out.append("\t")
+        elif t == "sp":
+            out.append(" ")
         elif t == "a":
             out.append(f'<a href="https://example.invalid/">{_inl(i[1])}</a>')
         elif t == "ins":
@@ -108,7 +110,8 @@ def write_epub(book: dict, opf_dir: str = "OEBPS") -> bytes:
         files[f"{pre}ch{n}.xhtml"] = (ch["raw_xhtml"].encode() if isinstance(ch, dict) and "raw_xhtml" in ch
                                       else write_html(ch, xhtml=True))
         man = f'<item id="ch{n}" href="ch{n}.xhtml" media-type="application/xhtml+xml"/>' + man   # manifest order != spine order
-        spine += f'<itemref idref="ch{n}"/>'
+        # every third chapter is auxiliary content (linear="no": answers, notes): part of the book all the same
+        spine += f'<itemref idref="ch{n}"' + (' linear="no"' if n % 3 == 2 else (' linear="yes"' if n % 3 == 0 else "")) + "/>"
     for k, img in enumerate(book.get("images") or [], start=1):
         if img.get("data") is not None:
             files[img["part"]] = img["data"]
